@@ -202,7 +202,7 @@ pub fn run_case(c: &SCase, stats: &mut Stats) -> Result<(), (String, String)> {
 pub const RULE: &str = "proptest worlds: a SOL-tagged bank and two staked-collateral banks A, B (real init_staked_settings + add_bank_permissionless, fabricated single-validator pools with generated LST supply / delegated stake, shared SOL Pyth feed), a borrower holding LST of A and owing SOL (optionally made liquidatable by slashing pool A); borrow / withdraw / classic liquidate / pulse_bank_price_cache / receivership bracket whose baseline succeeds are re-run with every substitution of bank A's three pinned oracle accounts by the corresponding account of pool B, by each other, or by another bank's authentic Pyth feed (7 substitution patterns): each must fail. Non-trivial = a world with at least one asserted cell.";
 
 pub fn run(ctx: &Ctx) -> Report {
-    let cases: u32 = ctx.tier.pick(150, 20_000);
+    let cases: u32 = ctx.tier.pick(300, 20_000);
     par_workers(ctx.threads, |wi| {
         let mut rep = Report::new(RULE);
         let strat = case_strategy();
